@@ -131,3 +131,67 @@ PROPS['C10'] = dict(
     explanation='INV_ttl (every entry sits in shard secs(expiry) mod shards) is preserved by put/update/delete; the sweep step removes exactly the entries of the '
                 'current shard whose expiry has passed and calls the evict hook exactly once for each; deleting an unknown id in CacheWeight is the identity and ids are never reused.',
 )
+
+BND = lambda hs: {h: dict(kind='bounded') for h in hs}
+
+PROPS['C06'] = dict(
+    level='proof',
+    title='Admission follows the TinyLFU rule: colder keys never evict hotter ones',
+    verus=['policy'],
+    kani={'quick': ['cw/sampled_key_order_matches_spec', 'cw/sampled_key_order_transitive', 'cw/space_available_full_domain',
+                    'cw/add_n2', 'cw/delete_n2', 'cw/reads_n2'],
+          'thorough': ['cw/add_n3', 'cw/delete_n3', 'cw/sampler_initial_n3', 'cw/sampler_pop_n2', 'cw/sampler_fill_in_n2', 'cw/sampler_no_duplicate_fill_n2', 'ap/maybe_add_n1']},
+    kani_meta=BND(['cw/add_n2', 'cw/delete_n2', 'cw/reads_n2', 'cw/add_n3', 'cw/delete_n3', 'cw/sampler_initial_n3', 'cw/sampler_pop_n2',
+                   'cw/sampler_fill_in_n2', 'cw/sampler_no_duplicate_fill_n2', 'ap/maybe_add_n1']),
+    harness_timeout='1700s', kani_timeout=3500,
+    bounded_note='the CALLEE contracts the Verus proof relies on are checked on the real CacheWeight / sampler code from arbitrary pre-states with at most N residents '
+                 '(quick: add/delete/reads N=2; thorough: N=3, the sampler contract N<=3, and maybe_add end-to-end with one resident)',
+    floor={'quick': 14, 'thorough': 21},
+    assumptions=[CONC,
+                 'T6: a ghost (erased) World parameter is threaded through maybe_add/create_space and their calls into CacheWeight and the sampler; it stands for the lock-protected state',
+                 'T7: the closure |key_hash| self.estimate(key_hash) is annotated with ensures r == est_spec(key_hash)',
+                 'AdmissionPolicy::estimate returns est_spec(hash): a pure function of the hash while nobody records accesses (TinyLFU::estimate is &self; unit sketch)',
+                 'the contracts of CacheWeight::{add,delete,is_space_available_for,..} and of the sampler are ASSUMED in the Verus unit and checked (bounded N) by the named Kani harnesses',
+                 'X3: std BinaryHeap / HashSet are bound to stand-ins in the Kani sampler harnesses (pop returns a maximum; a set)',
+                 'termination of create_space is not proved (exec_allows_no_decreases_clause)'],
+    explanation='Verus proves for all cache contents, weights, estimates and sample contents that maybe_add accepts without eviction when the put fits, rejects with no change when it is heavier '
+                'than the cache, and otherwise evicts exactly the keys the sampler hands out (each the coldest of its sample, each with estimate <= the incoming estimate, one at a time while space is missing), '
+                'rejects only when the sample ran dry or its coldest key is hotter, and accepts exactly when enough space results. SampledKey::cmp is checked for all (u8,i64) pairs.',
+)
+
+PROPS['C01'] = dict(
+    level='proof',
+    title='Total weight never exceeds the configured cache weight',
+    verus=['policy', 'lemmas'],
+    verus_only={'lemmas': [r'lemma_step_preserves_inv', r'lemma_history_preserves_inv', r'lemma_check_then_add_is_stable'],
+                'policy': [r'maybe_add', r'create_space', r'update', r'delete_with_hook', r'weight_used']},
+    kani={'quick': ['cw/space_available_full_domain', 'cw/add_n2', 'cw/delete_n2', 'cw/update_outside_region_n2', 'cw/update_region_cover_n2', 'cw/clear_n2', 'cw/reads_n2'],
+          'thorough': ['cw/add_n3', 'cw/delete_n3', 'cw/update_outside_region_n3', 'ap/delete_update_n2']},
+    kani_meta=dict(BND(['cw/add_n2', 'cw/delete_n2', 'cw/update_outside_region_n2', 'cw/clear_n2', 'cw/reads_n2', 'cw/add_n3', 'cw/delete_n3', 'cw/update_outside_region_n3', 'ap/delete_update_n2']),
+                   **{'cw/update_region_cover_n2': dict(region_cover='F-C01-update')}),
+    bounded_note='CacheWeight triples from an arbitrary INV_w pre-state with at most N residents (2 quick, 3 thorough), all i64 weights and cache weights',
+    floor={'quick': 14, 'thorough': 18},
+    assumptions=[CONC, 'the schedule quantifier of C01 is NOT explored; stability of the check-then-add window under interleaved deletes is lemma L2 over the contracts',
+                 'T6/T7 as in C06'],
+    not_covered=['intermediate instants inside one locked section', 'UpdateWeight growth beyond the free space: known finding F-C01-update'],
+    explanation='INV_w (0 <= used <= max, used = sum of weights) is preserved by every CacheWeight operation under its contract precondition; maybe_add calls add only when the space suffices '
+                '(Verus, unbounded: the precondition of add is an obligation at both call sites); histories of any length by lemma L1.',
+)
+
+PROPS['C03'] = dict(
+    level='proof',
+    title='No spurious loss: without memory pressure an accepted key stays readable',
+    verus=['lemmas', 'policy'],
+    verus_only={'lemmas': [r'lemma_no_spurious_loss'], 'policy': [r'maybe_add', r'create_space']},
+    kani={'quick': ['cw/delete_n2', 'store/put_n2', 'store/update_n2', 'store/delete_n2', 'store/mark_deleted_n2', 'store/get_n2', 'ttl/sweep_n2_s2'],
+          'thorough': ['store/put_n3', 'store/update_n3', 'store/delete_n3', 'ttl/sweep_n3_s4']},
+    kani_meta=BND(['cw/delete_n2', 'store/put_n2', 'store/update_n2', 'store/delete_n2', 'store/mark_deleted_n2', 'store/get_n2', 'ttl/sweep_n2_s2',
+                   'store/put_n3', 'store/update_n3', 'store/delete_n3', 'ttl/sweep_n3_s4']),
+    harness_timeout='1500s', kani_timeout=3400,
+    bounded_note='frame clauses ("every other entry unchanged") of the Store / CacheWeight / sweep triples, at most N entries',
+    floor={'quick': 10, 'thorough': 14},
+    assumptions=[CONC, 'TinyLFU / pool operations do not reference Store or CacheWeight (syntactic fact: the functions of lfu/ and pool.rs mention neither type)',
+                 'operations on k itself are issued one after another (premise of the property)'],
+    explanation='C03 is lemma L3 over FRAME contracts: an admission that fits evicts nothing (Verus, unbounded), the sweep removes only entries whose expiry has passed, '
+                'CacheWeight::delete of an unknown id is the identity, every Store writer touches only its own key.',
+)
